@@ -1,11 +1,15 @@
 import json, os, re, subprocess, sys
+# usage: seedrecord.py [NAME[+Cxx+Cyy] ...]   re-run the seed's own check (and the extra checks) and record what detects it
+EXTRA = {a.split('+')[0]: a.split('+')[1:] for a in sys.argv[1:]}
 for name in sorted(os.listdir('/verif/seeded')):
     if not sys.argv[1:] and not re.match(r'C\d+-a\d+$', name): continue
-    if sys.argv[1:] and name not in sys.argv[1:]: continue
+    if sys.argv[1:] and name not in EXTRA: continue
     mf='/verif/seeded/%s/meta.json'%name
     meta=json.load(open(mf))
     prop=meta['property']
-    out=subprocess.run(['/verif/tools/seedtest.sh','/verif/seeded/%s/patch.diff'%name,prop],capture_output=True,text=True).stdout
+    prev = [c for c in meta.get('detected_by', {}) if c != prop]
+    checks = [prop] + sorted(set(prev + EXTRA.get(name, [])))
+    out=subprocess.run(['/verif/tools/seedtest.sh','/verif/seeded/%s/patch.diff'%name]+checks,capture_output=True,text=True).stdout
     det={}; cur=None
     for l in out.splitlines():
         mm=re.match(r"== (C\d+) exit=(\d+)\s+(\d+) violation", l)
